@@ -11,7 +11,7 @@
 // results, and every call is appended to a shared event log. The endpoints
 // are plugged in through synchronization.ProtocolHandlers under an otherwise
 // unused URL protocol.
-package sessx
+package scriptx
 
 import (
 	"context"
